@@ -343,6 +343,11 @@ class World(EventDispatcher):
         those changes should be duplicated here as well.
         """
         for entity in tuple(self._dead_entities):
+            # A callback of a previously cleared entity may have
+            # fulfilled this request already (eg. an immediate deletion)
+            if entity not in self._dead_entities:
+                continue
+
             # Forget the request first, so that a failure on this entity
             # is not repeated at every following call
             self._dead_entities.discard(entity)
@@ -585,7 +590,10 @@ class World(EventDispatcher):
         Entities are removed before processors.
         """
         for entity in tuple(self._entities):
-            self.delete_entity(entity, immediate=True)
+            # A callback of a previously deleted entity may have deleted
+            # this one already
+            if entity in self._entities:
+                self.delete_entity(entity, immediate=True)
         self._dead_entities.clear()
 
         for processor in tuple(self._sorted_processors):
